@@ -78,6 +78,7 @@ type Define struct {
 
 type Bind struct {
 	Name   string
+	Type   string // optional: lets callers of the contract introduce the bound value as a witness
 	K      int
 	Callee string
 }
@@ -503,8 +504,12 @@ func (sp *Specs) parseFile(repo, file string) error {
 			// bind name = call K callee
 			var b Bind
 			parts := strings.Fields(rest)
+			if len(parts) == 6 && parts[2] == "=" && parts[3] == "call" {
+				b.Type = parts[1]
+				parts = append(parts[:1], parts[2:]...)
+			}
 			if len(parts) != 5 || parts[1] != "=" || parts[2] != "call" {
-				return fmt.Errorf("%s:%d: bind name = call K callee", file, pendingLine)
+				return fmt.Errorf("%s:%d: bind name [type] = call K callee", file, pendingLine)
 			}
 			b.Name = parts[0]
 			b.K, _ = strconv.Atoi(parts[3])
